@@ -203,7 +203,10 @@ async fn run(input: RunInput, mode: Mode) -> RunOutput {
             if let Ok(p) = &res {
                 w.check(*p == ids[j], "dial-returned-wrong-id", "dial", || "wrong id".into());
             }
-            if res.is_ok() && !faulty && mode == Mode::C04 {
+            // (without keep-alive a registered connection may already be dead on the remote side -
+            // idle timeouts fire at different instants on the two ends - and the tie-break may
+            // legitimately keep it over the fresh one, so this is only judged with keep-alive)
+            if res.is_ok() && !faulty && ka_ms.is_some() && mode == Mode::C04 {
                 // after a (re-)dial the peer is listed and the registered connection serves RPCs
                 let listed = slots[i].node.net.peers().contains(&ids[j]);
                 w.check(listed, "peer-not-listed-after-dial", format!("re={already}"), || format!("n{i} dialed n{j} successfully but does not list it"));
@@ -291,7 +294,9 @@ async fn run(input: RunInput, mode: Mode) -> RunOutput {
             let rr = rpc_bounded(&slots[i].node, ids[j], Request::new(Bytes::from_static(b"ping")), Duration::from_secs(60)).await;
             desc = format!("rpc n{i}>n{j}:{}", if rr.is_ok() { "ok" } else { "err" });
             if let Err(e) = &rr {
-                w.check(e != "hang", "rpc-hang", "history", || format!("rpc n{i}>n{j} pending for 60 s"));
+                // no timing verdict while faults still flow (a 70 % loss burst legitimately keeps a
+                // connection alive and an RPC pending for a long time)
+                w.check(e != "hang" || faulty, "rpc-hang", "history", || format!("rpc n{i}>n{j} pending for 60 s on a fault-free network"));
             }
         } else {
             // a new observer subscribes now
